@@ -1091,3 +1091,104 @@ func constInt(s string) (int64, bool) {
 }
 
 func init() { register(ruleA5, ruleA6, ruleC5, ruleC6, ruleJ1, ruleJ2) }
+
+// ---------------------------------------------------------------------------------
+// C7 settings keys are not shared
+
+var ruleC7 = &Rule{
+	ID:    "C7",
+	Floor: 6,
+	Doc: "one recorder per settings key: every (type, name) key under which a retention routine records its applied value (putSetting; the name is resolved to the constants passed at the call sites of the routine) is written by exactly one routine. " +
+		"Two routines sharing a key overwrite each other's record, so each finds a `changed` value on every run and re-issues its ALTERs forever",
+	Run: func(c *Ctx) []Obl {
+		p := c.Pkg(pkgCtrlMaint)
+		if p == nil {
+			return []Obl{{Key: pkgCtrlMaint, Pos: "-", Status: Undecided, Msg: "package not loaded"}}
+		}
+		put := p.Types.Scope().Lookup("putSetting")
+		if put == nil {
+			return []Obl{{Key: "putSetting", Pos: "-", Status: Undecided, Msg: "anchor not found"}}
+		}
+		type rec struct {
+			fn  string
+			pos token.Pos
+		}
+		keys := map[string][]rec{}
+		for _, fi := range c.Funcs(c.PkgsUnder(pkgCtrlMaint)) {
+			if !c.LiveFunc(fi) {
+				continue
+			}
+			info := fi.Pkg.TypesInfo
+			self := info.Defs[fi.Decl.Name]
+			ast.Inspect(fi.Decl.Body, func(n ast.Node) bool {
+				call, ok := n.(*ast.CallExpr)
+				if !ok || calleeObj(info, call) != put || len(call.Args) != 4 {
+					return true
+				}
+				tp, _ := constString(info, call.Args[1])
+				if name, ok := constString(info, call.Args[2]); ok {
+					keys[tp+"/"+name] = append(keys[tp+"/"+name], rec{fi.Name(), call.Pos()})
+					return true
+				}
+				// the name is a parameter: resolve at the call sites of this routine
+				id, ok := ast.Unparen(call.Args[2]).(*ast.Ident)
+				if !ok {
+					return true
+				}
+				pidx := -1
+				i := 0
+				for _, f := range fi.Decl.Type.Params.List {
+					for _, nm := range f.Names {
+						if info.Defs[nm] == info.Uses[id] {
+							pidx = i
+						}
+						i++
+					}
+				}
+				if pidx < 0 {
+					return true
+				}
+				for _, cf := range c.Funcs(c.PkgsUnder("ctrl")) {
+					cinfo := cf.Pkg.TypesInfo
+					ast.Inspect(cf.Decl.Body, func(m ast.Node) bool {
+						cc, ok := m.(*ast.CallExpr)
+						if !ok || calleeObj(cinfo, cc) != self || len(cc.Args) <= pidx {
+							return true
+						}
+						if name, ok := constString(cinfo, cc.Args[pidx]); ok {
+							keys[tp+"/"+name] = append(keys[tp+"/"+name], rec{fi.Name(), cc.Pos()})
+						} else {
+							keys[tp+"/?"] = append(keys[tp+"/?"], rec{fi.Name(), cc.Pos()})
+						}
+						return true
+					})
+				}
+				return true
+			})
+		}
+		var ks []string
+		for k := range keys {
+			ks = append(ks, k)
+		}
+		sort.Strings(ks)
+		var obls []Obl
+		for _, k := range ks {
+			fns := map[string]bool{}
+			for _, r := range keys[k] {
+				fns[r.fn] = true
+			}
+			key := fmt.Sprintf("settings key %s has a single recorder", k)
+			if len(fns) == 1 && !strings.HasSuffix(k, "/?") {
+				obls = append(obls, Obl{Key: key, Pos: c.pos(keys[k][0].pos), Status: OK, Msg: keysOf(fns)[0]})
+			} else if strings.HasSuffix(k, "/?") {
+				obls = append(obls, Obl{Key: key, Pos: c.pos(keys[k][0].pos), Status: Undecided, Msg: "setting name is not a constant at the call site"})
+			} else {
+				obls = append(obls, Obl{Key: key, Pos: c.pos(keys[k][len(keys[k])-1].pos), Status: Violation,
+					Msg: fmt.Sprintf("recorded by %v: each routine overwrites the other's value, finds it `changed` on the next run and issues its ALTERs again — running with unchanged configuration is never a no-op", keysOf(fns))})
+			}
+		}
+		return obls
+	},
+}
+
+func init() { register(ruleC7) }
